@@ -30,6 +30,53 @@ AdvVector(k) ==
                        \o [i \in 1..Len(ns) |-> FromStep(k, ToTransform(k, ns[i]), TRUE)]
                        \o [i \in 1..Len(ns) |-> FromStep(k, ToTransform(k, ns[i]), FALSE)])
 
+\* ---- transforms as they can ARRIVE (W-form: any number of attributes per transform, several transforms and proposals in one SA
+\* payload).  Whatever a decoder does with attributes beyond the first, the mapping never yields an algorithm whose identifier or key
+\* size the transform does not carry: allowed = "unsupported", or -- for AES-CBC -- a size named by one of ITS OWN fixed-length Key
+\* Length attributes; a transform is judged by its own octets, never by those of a neighbour decoded before it
+WA(at, av) == [af |-> 1, at |-> at, av |-> av, avl |-> << >>]
+WL(at, avl) == [af |-> 0, at |-> at, av |-> 0, avl |-> avl]
+WT(tt, tid, attrs) == [r1 |-> 0, tt |-> tt, r2 |-> 0, tid |-> tid, attrs |-> attrs]
+AllowedW(k, t) ==
+  LET own == IF k \in {"encr", "encrk"}
+               THEN IF t.tid = 12 THEN { AesName(t.attrs[i].av) : i \in { j \in 1..Len(t.attrs) : t.attrs[j].af = 1 /\ t.attrs[j].at = 14 /\ t.attrs[j].av \in {128, 192, 256} } } ELSE {}
+               ELSE { FromTransform(k, [tid |-> t.tid, attr |-> "none", at |-> 0, av |-> 0]) } \ {"unsupported"} IN
+  SetToSeqAny(own \cup {"unsupported"})
+AttrLists == { << WA(14, 128), WA(9, 256) >>, << WA(14, 999), WA(9, 256) >>, << WA(9, 256), WA(14, 128) >>, << WA(14, 128), WA(14, 256) >>,
+               << WA(14, 192), WL(14, << 1, 0 >>) >>, << WL(9, << 0, 128 >>), WA(14, 256) >>, << WA(14, 256), WA(142, 128), WA(15, 192) >>,
+               << WA(13, 128), WA(15, 192) >>, << WL(14, << 0, 128 >>), WL(14, << 1, 0 >>) >>, << WA(14, 64), WA(14, 128) >>, << WA(14, 256), WA(14, 256) >>,
+               << WA(14, 0), WA(0, 192) >>, << WA(1, 256), WA(2, 192), WA(14, 128) >> }
+\* (1) one transform with two or three attributes, through every decode function of its type
+MultiAttrVector(k) ==
+  LET tt == TypeOfKind(k)
+      tids == IF tt = 1 THEN << 12, 12, 3 >> ELSE << 2, 12, 9 >>
+      ls == SetToSeqAny(AttrLists)
+      one(t) == [k |-> "SA", crit |-> 0, rsv |-> 0, props |-> << [r |-> 0, num |-> 1, proto |-> 1, spi |-> << >>, tr |-> << t >>] >>] IN
+  Vector("transforms_multiattr", [i \in 1..(3 * Len(ls)) |->
+    LET t == WT(tt, tids[((i - 1) % 3) + 1], ls[((i - 1) \div 3) + 1]) IN
+    Step("transform_to_alg", "C11", FALSE, [kind |-> k, sawire |-> EncBodyW(one(t)), prop |-> 1, tt |-> tt, idx |-> 1], [panic |-> FALSE, alg |-> [oneof |-> AllowedW(k, t)]])])
+\* (2) several transforms / proposals in one SA payload: each transform is mapped as if it had arrived alone
+NeighbourLists ==
+  << << WT(1, 12, << WA(14, 256) >>), WT(1, 12, << WL(14, << 0, 128 >>) >>), WT(1, 12, << >>), WT(1, 12, << WA(14, 128) >>), WT(1, 12, << WL(14, << 1, 0 >>) >>) >>,
+     << WT(3, 2, << WA(14, 192) >>), WT(1, 12, << WL(14, << 0, 192 >>) >>), WT(1, 12, << WA(15, 256) >>), WT(2, 5, << WA(14, 128) >>), WT(1, 12, << >>) >>,
+     << WT(1, 12, << WA(14, 128) >>), WT(1, 3, << >>), WT(1, 12, << WA(14, 192) >>), WT(1, 13, << WA(14, 256) >>), WT(1, 12, << WA(14, 256) >>), WT(1, 12, << WA(14, 257) >>) >>,
+     << WT(3, 2, << >>), WT(3, 9, << >>), WT(3, 12, << >>), WT(3, 1, << >>), WT(2, 2, << >>), WT(2, 9, << >>), WT(2, 5, << >>), WT(4, 14, << >>), WT(4, 5, << >>), WT(4, 2, << >>), WT(5, 1, << >>), WT(5, 2, << >>), WT(5, 0, << >>) >> >>
+NthOfType(trs, q) == Cardinality({ j \in 1..q : trs[j].tt = trs[q].tt })
+KindsOfType(tt) == CASE tt = 1 -> << "encr", "encrk" >> [] tt = 2 -> << "prf" >> [] tt = 3 -> << "integ", "integk" >> [] tt = 4 -> << "dh" >> [] OTHER -> << "esn" >>
+NeighbourVector(n, two) ==
+  LET trs == NeighbourLists[n]
+      \* the same transforms in one proposal, or split over two proposals of the same SA payload (the second holds the tail)
+      h == Len(trs) \div 2
+      props == IF two THEN << [r |-> 0, num |-> 1, proto |-> 1, spi |-> << >>, tr |-> SubSeq(trs, 1, h)], [r |-> 0, num |-> 2, proto |-> 1, spi |-> << >>, tr |-> SubSeq(trs, h + 1, Len(trs))] >>
+               ELSE << [r |-> 0, num |-> 1, proto |-> 1, spi |-> << >>, tr |-> trs] >>
+      w == EncBodyW([k |-> "SA", crit |-> 0, rsv |-> 0, props |-> props])
+      st(q, k) == LET pi == IF two /\ q > h THEN 2 ELSE 1
+                      own == props[pi].tr
+                      qq == IF two /\ q > h THEN q - h ELSE q IN
+                  Step("transform_to_alg", "C11", FALSE, [kind |-> k, sawire |-> w, prop |-> pi, tt |-> trs[q].tt, idx |-> NthOfType(own, qq)],
+                       [panic |-> FALSE, alg |-> [oneof |-> AllowedW(k, trs[q])]]) IN
+  Vector("transforms_neighbours", Flat([q \in 1..Len(trs) |-> [z \in 1..Len(KindsOfType(trs[q].tt)) |-> st(q, KindsOfType(trs[q].tt)[z])]]))
+
 \* single-choice proposals
 ChildProp(e, a, d, x) == [num |-> 1, proto |-> 3, spi |-> << 1, 2, 3, 4 >>,
   tr |-> << ToTransform("encrk", e) >> \o (IF a = "none" THEN << >> ELSE << ToTransform("integk", a) >>)
@@ -83,10 +130,11 @@ PropVectors ==
 Init == stage = 0 /\ kind = "" /\ id = 0
 Next ==
   \/ stage = 0 /\ stage' = 1 /\ kind' \in Kinds \cup {"props"} /\ id' = 0
-  \/ stage = 1 /\ kind # "props" /\ stage' = 2 /\ kind' = kind /\ id' \in Ids \cup {0 - 1}
+  \/ stage = 1 /\ kind # "props" /\ stage' = 2 /\ kind' = kind /\ id' \in Ids \cup {0 - 1, 0 - 2} \cup (IF kind = "encr" THEN (0 - 10)..(0 - 3) ELSE {})
   \/ stage = 1 /\ kind = "props" /\ stage' = 2 /\ kind' = kind /\ id' \in 1..Cardinality(PropVectors)
   \/ stage = 2 /\ UNCHANGED << stage, kind, id >>
 PropSeq == SetToSeqAny(PropVectors)
-Emit == stage = 2 => PrintT(ToJson(IF kind = "props" THEN PropSeq[id] ELSE IF id = 0 - 1 THEN AdvVector(kind) ELSE IdVector(kind, id)))
+Emit == stage = 2 => PrintT(ToJson(IF kind = "props" THEN PropSeq[id] ELSE IF id = 0 - 1 THEN AdvVector(kind) ELSE IF id = 0 - 2 THEN MultiAttrVector(kind)
+                                 ELSE IF id < 0 - 2 THEN NeighbourVector(((0 - id - 3) % 4) + 1, (0 - id - 3) >= 4) ELSE IdVector(kind, id)))
 Sound == RoundTripHolds
 =============================================================================
